@@ -32,7 +32,7 @@ func run(r *vk.Run) {
 	r.Describe("generic part: predicates are the 64 truth tables over (id in {a,b}) x (value in {absent, v0, v1}); write histories are words over "+
 		"{add,update,delete} x 2 ids x 2 values (10 letters, failing calls included). Phase 'table' enumerates every (predicate, id, old state, new state, "+
 		"backpressure on/off) cell once (2048 scenarios). Phase 'histories' enumerates every history of length <= 3 (quick; plus a PRNG-chosen 3% of length 4) "+
-		"or <= 4 (thorough) x 64 predicates x backpressure on/off; the point at which the subscriber is opened, the read mask (none / drops the field the "+
+		"or <= 4 (thorough; plus a PRNG-chosen 5% of length 5) x 64 predicates x backpressure on/off; the point at which the subscriber is opened, the read mask (none / drops the field the "+
 		"predicate reads / drops the sequence field) and, without backpressure, the set of writes after which the consumer is allowed to drain are drawn "+
 		"from the case PRNG. Phase 'long' runs random histories of length 5-10. Booking part: random bookings and query periods on a small time grid "+
 		"through bookingpb.ModelServer (ListBookings / PullBookings with booking_intersects). A case is distinct by (predicate, history, subscribe point, "+
